@@ -202,11 +202,28 @@ def run_check(mod, tier, seed, jobs=None):
         import tempfile
         base = tempfile.mkdtemp(prefix='deepverif-run-')
         os.environ['VERIF_SCRATCH'] = base
+        # watchdog: a worker that hangs would make the run wait for ever - no progress for a long time is reported as a broken check
+        import threading
+        progress = {'t': time.time(), 'done': 0}
+        limit = float(os.environ.get('VERIF_STALL_LIMIT', 1500 if tier == 'quick' else 4 * 3600))
+
+        def watchdog():
+            while not progress.get('stop'):
+                time.sleep(5)
+                if time.time() - progress['t'] > limit:
+                    print(f"CHECK-ERROR property={pid} no case chunk finished for {int(limit)} s ({progress['done']} of {len(chunks)} done): a case hangs", file=sys.stderr)
+                    print(f"check {pid} is broken: stalled", file=sys.stderr)
+                    shutil.rmtree(base, ignore_errors=True)
+                    os._exit(2)
+        threading.Thread(target=watchdog, daemon=True).start()
         try:
             with mpctx.Pool(nproc) as pool:
                 for out in pool.imap_unordered(_worker, [(modname, pid, tier, seed, c) for c in chunks]):
+                    progress['t'] = time.time()
+                    progress['done'] += 1
                     errors += out.pop('errors')
                     ctx.merge(out)
+            progress['stop'] = True
         finally:
             os.environ.pop('VERIF_SCRATCH', None)
             shutil.rmtree(base, ignore_errors=True)
